@@ -41,7 +41,7 @@ PROPS = {
     'C03': dict(
         level='model_checking', verus_units=['utils', 'core', 'redtasks'],
         kani=True,
-        kani_select=dict(quick=r'^k_task_\w+_red_n(3c1|3c2|1c1|2c1)|^k_glue_map_fil_red_n3c1|^k_api_par2_(map_fil_reduce|fil_fold|map_min_by_key|map_fil_sum)',
+        kani_select=dict(quick=r'^k_task_\w+_red_n(3c1|1c1|2c1)|^k_task_\w+_red_n3c2_m11|^k_glue_map_fil_red_n3c1|^k_api_par2_(map_fil_reduce|fil_fold|map_min_by_key|map_fil_sum)',
                          thorough=r'^k_task_\w+_red_|^k_glue_\w+_red_|^k_api_par2_\w+_(reduce|fold|sum|min|max|min_by|max_by|min_by_key|max_by_key)_n'),
         trusted_base=[T1, T5, T6, A64, ARITH, RSCHED, STUBS, MODEL],
         assumptions=[TASK_BOUND, 'operators checked: wrapping add, xor, min, max on u8 payloads (associative and commutative)'],
@@ -50,7 +50,7 @@ PROPS = {
     'C04': dict(
         level='model_checking', verus_units=['core', 'redtasks'],
         kani=True,
-        kani_select=dict(quick=r'^k_task_\w+_cnt_n|^k_glue_(map_fil|filtermap_fil)_cnt_n3c1|^k_api_par2_(empty_count|map_fil_count|fil_for_each)',
+        kani_select=dict(quick=r'^k_task_\w+_cnt_n|^k_glue_map_fil_cnt_n3c1|^k_api_par2_(empty_count|map_fil_count|fil_for_each)',
                          thorough=r'^k_task_\w+_cnt_|^k_glue_\w+_cnt_|^k_api_par2_\w+_(count|for_each)_n'),
         trusted_base=[T1, T5, T6, A64, ARITH, RSCHED, STUBS, MODEL],
         assumptions=[TASK_BOUND],
@@ -77,7 +77,7 @@ PROPS = {
     'C07': dict(
         level='model_checking', verus_units=['core'],
         kani=True,
-        kani_select=dict(quick=r'^k_task_(map_fil|filtermap_fil)_col_x_n3|^k_glue_(map_fil|filtermap_fil)_col_x_n2c1|^k_api_par2_(map|fil)_collect_x',
+        kani_select=dict(quick=r'^k_task_(map_fil|filtermap_fil)_col_x_n3|^k_glue_map_fil_col_x_n2c1|^k_api_par2_(map|fil)_collect_x',
                          thorough=r'^k_task_\w+_col_x_|^k_glue_\w+_col_x_|^k_api_\w+_collect_x_n'),
         trusted_base=[T1, T4, T5, RSCHED, STUBS, MODEL],
         assumptions=[TASK_BOUND, 'flat_map collect_x kernels are in the thorough tier only (each harness needs 6-10 min of CBMC time)'],
